@@ -305,3 +305,10 @@ U("ps.flush", src="units/ps_unit.c", harness="h_flush", enforce="flush_pubsub_ms
   props=["C02", "C08", "C04"], contract_files=PSC, native=False, timeout=300, min_obligations=30, must_have=["invariant after step"])
 U("evts.new_evt", src="units/evts_unit.c", harness="h_new_evt", enforce="new_evt", replace=["m_mem_new", "m_mem_ref"], logctx="CORE",
   props=["C02", "C04"], contract_files=EVTS, native=False, timeout=300, min_obligations=20)
+CTXAPI = ABS + ["contracts/ctxapi.contracts.h"]
+U("ctx.m_ctx", src="units/ctx_unit.c", harness="h_m_ctx", enforce="m_ctx", replace=["v_pthread_getspecific"], logctx="CORE", defines=["V_CTXAPI_UNIT", "V_ENFORCE_M_CTX"],
+  props=["C15", "C07", "C04"], contract_files=CTXAPI, native=False, timeout=300, min_obligations=15)
+U("ctx.deregister", src="units/ctx_unit.c", harness="h_ctx_deregister", enforce="m_ctx_deregister", replace=["m_ctx", "v_pthread_setspecific", "m_map_iterate", "m_mem_unref"], logctx="CORE",
+  defines=["V_CTXAPI_UNIT"], props=["C07", "C15", "C04"], contract_files=CTXAPI, native=False, timeout=120, min_obligations=20)
+U("ctx.register", src="units/ctx_unit.c", harness="h_ctx_register", enforce="m_ctx_register", replace=["str_not_empty", "v_pthread_once", "v_pthread_getspecific", "ctx_new"], logctx="CORE",
+  defines=["V_CTXAPI_UNIT"], props=["C07", "C04"], contract_files=CTXAPI, native=False, timeout=300, min_obligations=20)
